@@ -8,7 +8,7 @@
 //!   * `file-ids`       `add_file`/`add_directory` ids are not a function of the key
 //!   * `new-rejects`    `LineProgram::new` panics on line_base <= 0 < line_base + line_range
 use crate::prop::{Ctx, Tier};
-use crate::util::{digest_step, hex, unhex, werr, Rng, DIGEST_INIT};
+use crate::util::{digest_step, hex, rerr, unhex, werr, Rng, DIGEST_INIT};
 use gimli::read;
 use gimli::write::{
     Address, DebugLine, DebugLineStr, DebugStr, DirectoryId, EndianVec, FileId, FileInfo, LineProgram, LineString,
@@ -293,12 +293,22 @@ fn instr_tokens(p: &Par, sec: &[u8]) -> String {
                     I::EndSequence => "es".into(),
                     I::SetAddress(a) => format!("sa:{a}"),
                     I::SetDiscriminator(n) => format!("sd:{n}"),
-                    other => format!("other:{:?}", other).replace(' ', ""),
+                    I::UnknownStandard0(op) => format!("u0:{}", op.0),
+                    I::UnknownStandard1(op, a) => format!("u1:{}:{a}", op.0),
+                    I::UnknownStandardN(op, a) => format!("unx:{}:{}", op.0, hex(a.slice())),
+                    I::UnknownExtended(op, d) => format!("ux:{}:{}", op.0, hex(d.slice())),
+                    I::DefineFile(f) => {
+                        let path = match f.path_name() {
+                            read::AttributeValue::String(r) => hex(r.slice()),
+                            _ => "?".into(),
+                        };
+                        format!("df:str:{};{};{};{};{};~", path, f.directory_index(), f.timestamp(), f.size(), hex(f.md5()))
+                    }
                 });
             }
             Ok(None) => break,
             Err(x) => {
-                out.push(format!("err:{:?}", x).replace(' ', ""));
+                out.push(format!("err:{}", rerr(&x)));
                 break;
             }
         }
